@@ -4,7 +4,7 @@ cd "$(dirname "$0")" || exit 1
 export GOFLAGS=-mod=mod GOPROXY=off
 unset GOTOOLCHAIN GOSUMDB GORACE
 mkdir -p bin evidence replays
-(cd sim && go build ./... && go build -o ../bin/verif-check ./cmd/verif-check) || exit 1
+(cd sim && go build ./... && go build -race ./simrt ./simsync ./simmap ./kernel ./parsersim && go build -o ../bin/verif-check ./cmd/verif-check) || exit 1
 # warm: the repository itself and the packages the simulated worlds link
 (cd /repo && go build ./... ) || exit 1
 echo "setup ok"
